@@ -584,6 +584,19 @@ def _set_value_in_attrset(
     if not segments:
         raise ValueError("NPath cannot be empty")
 
+    def _write_through(binding: Binding) -> None:
+        """Replace the value of the binding a reference leads to, keeping its trivia."""
+        new_expr = value_expr
+        old = binding.value
+        if isinstance(old, NixExpression) and isinstance(new_expr, NixExpression):
+            before = old.before if not new_expr.before else new_expr.before
+            after = old.after if not new_expr.after else new_expr.after
+            if before != new_expr.before or after != new_expr.after:
+                new_expr = new_expr.model_copy(
+                    update={"before": list(before), "after": list(after)}
+                )
+        binding.value = new_expr
+
     def _assign_through_identifier(
         identifier: Identifier, owner: AttributeSet = target_set
     ) -> bool:
@@ -617,11 +630,11 @@ def _set_value_in_attrset(
                 if let_bindings:
                     for outer in let_bindings:
                         if outer.name == target_name:
-                            outer.value = value_expr
+                            _write_through(outer)
                             return
                 sibling_binding = _find_binding(target_set, target_name)
                 if sibling_binding is not None:
-                    sibling_binding.value = value_expr
+                    _write_through(sibling_binding)
                     return
             binding.value = value_expr
             return
@@ -650,7 +663,7 @@ def _set_value_in_attrset(
                 if isinstance(inherited_binding.value, Identifier) and let_bindings:
                     for outer in let_bindings:
                         if outer.name == inherited_binding.value.name:
-                            outer.value = value_expr
+                            _write_through(outer)
                             return
                 inherited_binding.value = value_expr
                 return
@@ -664,11 +677,11 @@ def _set_value_in_attrset(
             if let_bindings:
                 for outer in let_bindings:
                     if outer.name == target_name:
-                        outer.value = value_expr
+                        _write_through(outer)
                         return
             sibling_binding = _find_binding(parent_set, target_name)
             if sibling_binding is not None:
-                sibling_binding.value = value_expr
+                _write_through(sibling_binding)
                 return
         existing_binding.value = value_expr
         return
